@@ -43,6 +43,11 @@
 //! is not claimed either way; empty defaults / `|` inside simple defaults / variables in the FALSE branch are not
 //! generated (undocumented syntax: `${A|t|x${B}}` leaves a stray `}` when A is true).
 //!
+//! Cost: quick 3 000 cases ≈ 30 CPU-s (29–47 s wall on the saturated sandbox); thorough 100 000 cases, 16 shards,
+//! not yet measured to completion (the only attempt ran with temp dirs on the saturated shared disk and tripped the
+//! per-case watchdog after 25 min; the saved case replays green in 2–25 s, i.e. it was I/O starvation — temp dirs now
+//! live in /dev/shm when present, set VF_C46_DISK_TMP=1 to force the default temp dir).
+//!
 //! Sensitivity probes (benchmarks/src/sql_benchmark.rs, patches made with mkpatch, run as
 //! `mutrun <patch> -- ./check C46 quick`; all six reported VIOLATION / exit 1 within the quick budget, the
 //! unchanged tree passes seeds 0..4):
@@ -780,6 +785,18 @@ async fn persist_then_verify(dir: &Path, p: &Table, q: &Table, partitions: usize
     }
 }
 
+/// Per-case temp dir; on a memory file system when there is one (the shared disk of the sandbox is saturated by
+/// other people's builds, which made a 30-CPU-second quick run take minutes of wall time). Removed on drop.
+fn case_tempdir() -> std::io::Result<tempfile::TempDir> {
+    let shm = Path::new("/dev/shm");
+    if std::env::var_os("VF_C46_DISK_TMP").is_none() && shm.is_dir() {
+        if let Ok(d) = tempfile::Builder::new().prefix("vf-c46-").tempdir_in(shm) {
+            return Ok(d);
+        }
+    }
+    tempfile::tempdir()
+}
+
 fn csv_needs_quoting(s: &str) -> bool {
     s.contains('|') || s.contains('"') || s.contains('\n') || s.contains('\r')
 }
@@ -793,7 +810,7 @@ fn run_results(c: &ResCase) -> CaseResult {
     let (p, q) = if c.mutate_persisted { (mutated, original) } else { (original, mutated) };
     let expect = expectation(&p, &q);
 
-    let dir = match tempfile::tempdir() {
+    let dir = match case_tempdir() {
         Ok(d) => d,
         Err(e) => return CaseResult::inconclusive(format!("tempdir: {e}")),
     };
@@ -801,13 +818,13 @@ fn run_results(c: &ResCase) -> CaseResult {
         Ok(rt) => rt,
         Err(e) => return CaseResult::inconclusive(format!("tokio runtime: {e}")),
     };
-    let step = rt.block_on(async { tokio::time::timeout(std::time::Duration::from_secs(60), persist_then_verify(dir.path(), &p, &q, c.partitions as usize)).await });
+    let step = rt.block_on(async { tokio::time::timeout(std::time::Duration::from_secs(150), persist_then_verify(dir.path(), &p, &q, c.partitions as usize)).await });
     let persisted_file = std::fs::read_to_string(dir.path().join("result.csv")).unwrap_or_else(|_| "<result.csv is not a readable file>".into());
     drop(rt);
     drop(dir);
     let step = match step {
         Ok(s) => s,
-        Err(_) => return CaseResult::inconclusive("persist/verify did not finish within 60 s"),
+        Err(_) => return CaseResult::inconclusive("persist/verify did not finish within 150 s"),
     };
 
     let texts = |t: &Table| -> Vec<String> { t.rows.iter().flatten().filter_map(|v| if let CellV::Text(s) = v { Some(s.clone()) } else { None }).collect() };
@@ -1000,7 +1017,7 @@ fn run_placeholders(c: &PhCase) -> CaseResult {
         Site::Name => format!("name <{template}>\n\nrun\nSELECT 1\n"),
         Site::Subgroup => format!("subgroup <{template}>\n\nrun\nSELECT 1\n"),
     };
-    let dir = match tempfile::tempdir() {
+    let dir = match case_tempdir() {
         Ok(d) => d,
         Err(e) => return CaseResult::inconclusive(format!("tempdir: {e}")),
     };
@@ -1122,7 +1139,7 @@ impl Property for C46 {
         prop_oneof![1 => res_case(tier), 2 => ph_case()].boxed()
     }
     fn budget(&self, tier: Tier) -> Budget {
-        Budget::new(tier.pick(1_500, 100_000), tier.pick(8, 16)).min_nontrivial(tier.pick(200, 15_000)).case_timeout(180).shrink(1000, 60)
+        Budget::new(tier.pick(3_000, 100_000), tier.pick(8, 16)).min_nontrivial(tier.pick(300, 15_000)).case_timeout(tier.pick(180, 900)).shrink(1000, 60)
     }
     fn rule(&self) -> String {
         "1:2 mix of result cases (0-10 rows x 1-4 typed columns loaded from VALUES by a generated benchmark file, persisted, then a possibly mutated table verified against the persisted file through SqlBenchmark) \
